@@ -39,9 +39,11 @@ PT_PRE = '''
 from collections import OrderedDict
 from scinumtools import ParameterTable
 FIELDS = ['x', 'y']
+def K(k):
+    return 'run_' + k         # built at run time: every call gives a new, equal string object (keys must be compared by value)
 def build(v, keys):
-    pt = ParameterTable(FIELDS, {k: (getattr(v, k + 'x'), getattr(v, k + 'y')) for k in keys}, keys=True)
-    od = OrderedDict((k, (getattr(v, k + 'x'), getattr(v, k + 'y'))) for k in keys)
+    pt = ParameterTable(FIELDS, {K(k): (getattr(v, k + 'x'), getattr(v, k + 'y')) for k in keys}, keys=True)
+    od = OrderedDict((K(k), (getattr(v, k + 'x'), getattr(v, k + 'y'))) for k in keys)
     return pt, od
 def outcome(fn):
     try: return ('ok', fn())
@@ -53,11 +55,12 @@ def observe(O, out, tag, pt, od):
     out.append((f'{tag}: items order', O.same([k for k, _ in pt.items()], list(od.keys()))))
     for pos, (k, (x, y)) in enumerate(od.items()):
         out.append((f'{tag}: contains {k}', O.same(k in pt, True)))
-        for how, rec in (('key', pt[k]), ('position', pt[pos]), ('attribute', getattr(pt, k))):
+        for how, rec in (('key', pt[k]), ('equal key built again', pt[K(k[4:])]), ('position', pt[pos]), ('attribute', getattr(pt, k))):
             out.append((f'{tag}: {k} by {how}: x', O.eq(rec.x, x)))
             out.append((f'{tag}: {k} by {how}: y', O.eq(rec['y'], y)))
         out.append((f'{tag}: data() of {k}', O.eq(pt.data()[k]['x'], x)))
-    for k in ('a', 'b', 'c', 'zz'):
+    for k0 in ('a', 'b', 'c', 'zz'):
+        k = K(k0)
         if k not in od:
             out.append((f'{tag}: {k} absent', O.same(k in pt, False)))
             out.append((f'{tag}: {k} lookup refused', O.raises(lambda k=k: pt[k])))
@@ -67,7 +70,7 @@ def run(v, O):
     pt, od = build(v, v.keys)
     out = []
     observe(O, out, 'before', pt, od)
-    k = v.key
+    k = K(v.key)
     if v.op == 'append':
         pt.append(k, (v.nx, v.ny)); od[k] = (v.nx, v.ny)
     elif v.op == 'setitem':
